@@ -1426,6 +1426,10 @@ class Engine:
             mod_vars.add(extra)
         hst = st.clone()
         self.havoc(hst, mod_vars, mod_heap, k)
+        for gname in getattr(spec, 'ghost_modifies', ()):
+            gv = hst.ghost.get(gname)
+            if is_z3(gv):
+                hst.ghost[gname] = z3.Const(f'ghost:{gname}@L{k}!{next(M._counter)}', gv.sort())
         for name, e in spec.inv(Ctx(self, hst, entry=entry)):
             hst.facts.append(e)
         # arithmetic hints: valid identities (proved on their own, with no hypotheses) that the solver will not find
